@@ -137,6 +137,20 @@ Section Interp.
     | _, _, _, _, _, _, _, _ => None
     end.
 
+  (** interpolateMapValues: values only, names untouched *)
+  Definition interp_map_values (l : list (string * string)) : option (list (string * string)) :=
+    omapM (fun kv => option_map (fun v => (fst kv, v)) (expand (snd kv))) l.
+
+  (** CommandStep.interpolate under matrixInterpolator: command, label, plugins, env VALUES, unknown
+      fields; the key, env names, the matrix definition, the cache and the signature are not touched *)
+  Definition minterp_command (c : command_step) : option command_step :=
+    match expand (cs_command c), expand (cs_label c), omapM interp_plugin (cs_plugins c),
+          interp_map_values (cs_env c), interp_rem (cs_rem c) with
+    | Some cmd, Some lbl, Some pls, Some env, Some rem =>
+        Some (mkCmd (cs_key c) lbl cmd pls env (cs_sig c) (cs_matrix c) (cs_cache c) rem)
+    | _, _, _, _, _ => None
+    end.
+
   Fixpoint interp_step (s : step) : option step :=
     match s with
     | SCommand c => option_map SCommand (interp_command c)
